@@ -15,11 +15,14 @@
       X1  a removed path is a proper prefix of a present path,
       X2  an entry with metadata is overwritten by one with empty metadata,
       X3  add/remove after the first Store (or on a reloaded manifest);
+    histories may contain Store(ctx, sizeFn) calls (op [OStoreCb budget]): rejected ones
+    (budget below any node size) anywhere in the build phase — they must not change any later
+    observation — and arbitrary ones after the first plain Store (cached root);
     domain: non-empty byte paths, 32-byte references, metadata inside the modelled JSON
     fragment and below the 64 KiB fork limit. *)
 From Coq Require Import List NArith Bool.
 Import ListNotations.
-Require Import Aurora.C10.Model Aurora.C10.Spec Aurora.C10.Hist Aurora.C10.Refute.
+Require Import Aurora.C10.Model Aurora.C10.Spec Aurora.C10.Basics Aurora.C10.Hist Aurora.C10.Refute.
 
 (** after any disciplined history of add/remove/lookup/hasPrefix/store/reload a lookup of any
     path returns exactly the reference and metadata of the final mapping, or not-found *)
@@ -104,20 +107,36 @@ Qed.
 Print Assumptions C10_has_prefix_refuted.
 
 (** non-vacuity: a history with overwrites, a 40-byte path, nested directories, metadata, a
-    leaf removal, Store, lookups, reload meets every hypothesis of the partial theorems *)
+    leaf removal, rejected Stores (size callback), Store, lookups, reload meets every hypothesis
+    of the partial theorems *)
 Definition md1 : meta := [([67;116]%N, [116;120;116]%N)].
 Definition h_example : list op :=
   [OAdd [47]%N r1 md1; OAdd [105;109;103;47;49]%N r2 md1; OAdd [105;109;103;47;50]%N r3 [];
+   OStoreCb 0%N;   (* a Store rejected by its size callback, in the middle of the build phase *)
    OAdd [105;109;103;47;49]%N r3 md1; OAdd (repeat 48%N 40) r1 []; OAdd [105;110]%N r2 []; ORemove [105;110]%N;
-   OLookup [47]%N; OStore; OLookup [105;109;103;47;49]%N; OReload; OHasPrefix [105;109]%N; OStore].
+   OLookup [47]%N; OStoreCb 63%N; OStore; OLookup [105;109;103;47;49]%N; OReload; OHasPrefix [105;109]%N; OStore; OStoreCb 5%N].
 Example C10_hyps_satisfiable :
   (forall d, length (toy_addr d) = 32) /\ length zkey = 32 /\
   no_collision toy_addr (ms_log (final_state toy_addr zkey false h_example)) /\
   lookup_obs toy_addr zkey (final_state toy_addr zkey false h_example) [105;109;103;47;49]%N = BFound r3 md1 /\
   lookup_obs toy_addr zkey (final_state toy_addr zkey false h_example) (repeat 48%N 40) = BFound r1 [] /\
   lookup_obs toy_addr zkey (final_state toy_addr zkey false h_example) [105;110]%N = BErr ENotFound /\
+  disciplined spec_empty false h_example /\
+  snd (run toy_addr zkey (init_state false) [OAdd [47]%N r1 md1; OStoreCb 0%N]) = [BOk; BErr ESizeFn] /\
   length (ms_log (final_state toy_addr zkey false h_example)) = 8.
 Proof.
   split; [exact toy_addr_len|]. split; [reflexivity|]. split; [apply no_collisionb_ok; vm_compute; reflexivity|].
-  vm_compute. repeat split; reflexivity.
+  split; [vm_compute; reflexivity|]. split; [vm_compute; reflexivity|]. split; [vm_compute; reflexivity|].
+  split; [|vm_compute; split; reflexivity].
+  unfold h_example. cbn [disciplined op_in_domain op_disciplined].
+  repeat split; try reflexivity; try discriminate; try (repeat constructor; fail); try (intros; discriminate);
+    try (right; reflexivity); try (left; reflexivity).
+  intros q [Hq Hl]. unfold spec_step, spec_upd, spec_empty.
+  repeat match goal with
+  | |- context [list_eqb_N ?a q] =>
+      let E := fresh "E" in
+      destruct (list_eqb_N a q) eqn:E;
+      [apply Basics.list_eqb_N_eq in E; subst q; exfalso;
+       first [simpl in Hq; discriminate Hq | simpl in Hl; exact (PeanoNat.Nat.lt_irrefl _ Hl)] |]
+  end; reflexivity.
 Qed.
